@@ -24,6 +24,8 @@ type osFile struct {
 	rpos   int
 	wdata  []*Term // bytes written
 	closed bool
+	kfd    int // ≥ 0: the file is a descriptor of the kernel model (os.OpenFile); -1 otherwise
+	isK    bool
 }
 
 type procEnv struct {
@@ -356,10 +358,90 @@ func init() {
 		return Iface{T: types.NewPointer(m.osFileType()), V: m.stdFile(2)}
 	})
 
+	// os.File on top of a kernel-model descriptor (os.OpenFile): the methods are the system calls
+	// of the kernel model, with os's conventions for short reads (io.EOF-like error) and errors
+	reg("os.OpenFile", func(m *Machine, fn *ssa.Function, a []Value) Value {
+		path := concStrArg(m, a[0], "path")
+		fd, e := m.K.sysOpenat(-100, path, intArg(m, a[1], "open flags"), "openat")
+		t := fn.Signature.Results().At(0).Type()
+		if !isNilIface(e) {
+			return Tuple{Ptr{}, e}
+		}
+		o := m.newObject(t.(*types.Pointer).Elem(), m.zero(t.(*types.Pointer).Elem()), "file:"+path)
+		m.env().files[o] = &osFile{name: path, path: path, kfd: fd, isK: true}
+		return Tuple{Ptr{Obj: o}, Iface{}}
+	})
+	kfile := func(m *Machine, v Value) *osFile {
+		f := m.fileOf(v.(Ptr))
+		if !f.isK {
+			m.unsupported("positional I/O on an *os.File that is not backed by the kernel model")
+		}
+		return f
+	}
+	reg("(*os.File).Fd", func(m *Machine, fn *ssa.Function, a []Value) Value {
+		return m.S.Const(64, uint64(kfile(m, a[0]).kfd))
+	})
+	reg("(*os.File).Sync", func(m *Machine, fn *ssa.Function, a []Value) Value { return m.K.sysFsync(kfile(m, a[0]).kfd) })
+	reg("(*os.File).Truncate", func(m *Machine, fn *ssa.Function, a []Value) Value {
+		return m.K.sysFtruncate(kfile(m, a[0]).kfd, a[1].(*Term))
+	})
+	reg("(*os.File).WriteAt", func(m *Machine, fn *ssa.Function, a []Value) Value {
+		n, e := m.K.sysPwrite(kfile(m, a[0]).kfd, m.SliceBytes(a[1].(Slice)), a[2].(*Term), "pwrite")
+		if !isNilIface(e) {
+			return Tuple{m.S.Const(64, 0), e}
+		}
+		return Tuple{n, e}
+	})
+	reg("(*os.File).ReadAt", func(m *Machine, fn *ssa.Function, a []Value) Value {
+		buf := a[1].(Slice)
+		n, e := m.K.sysPread(kfile(m, a[0]).kfd, buf, a[2].(*Term))
+		if !isNilIface(e) {
+			return Tuple{m.S.Const(64, 0), e}
+		}
+		// os.File.ReadAt reports a short read (end of file) as an error
+		if m.Branch(m.S.ULt(n, m.S.Const(64, uint64(buf.Len)))) {
+			return Tuple{n, m.mkError(ConcStr("EOF", m.S), nil)}
+		}
+		return Tuple{n, Iface{}}
+	})
+	reg("(*os.File).Stat", func(m *Machine, fn *ssa.Function, a []Value) Value {
+		f := kfile(m, a[0])
+		k := m.K
+		if e := k.enter("fstat", fmt.Sprint(f.kfd)); e != 0 {
+			return Tuple{Iface{}, k.errno(e)}
+		}
+		d := k.fds[f.kfd]
+		if d == nil {
+			return Tuple{Iface{}, k.errno(eBADF)}
+		}
+		op := m.P.Pkgs["os"]
+		if op == nil || op.Type("fileStat") == nil {
+			m.unsupported("os.fileStat is not loaded")
+		}
+		st := op.Type("fileStat").Type()
+		sv := m.zero(st).(*StructV)
+		us := st.Underlying().(*types.Struct)
+		for i := 0; i < us.NumFields(); i++ {
+			if us.Field(i).Name() == "size" {
+				if d.ino.dir {
+					sv.F[i] = m.S.Const(64, 4096)
+				} else {
+					sv.F[i] = d.ino.vol.Size
+				}
+			}
+		}
+		o := m.newObject(st, sv, "fileinfo")
+		return Tuple{Iface{T: types.NewPointer(st), V: Ptr{Obj: o}}, Iface{}}
+	})
+
 	// os files
 	reg("(*os.File).Write", func(m *Machine, fn *ssa.Function, a []Value) Value {
 		f := m.fileOf(a[0].(Ptr))
 		b := m.SliceBytes(a[1].(Slice))
+		if f.isK {
+			n, e := m.K.sysPwrite(f.kfd, b, nil, "write")
+			return Tuple{n, e}
+		}
 		f.wdata = append(f.wdata, b...)
 		return Tuple{m.S.Const(64, uint64(len(b))), Iface{}}
 	})
@@ -370,7 +452,15 @@ func init() {
 		return Tuple{m.S.Const(64, uint64(len(b))), Iface{}}
 	})
 	reg("(*os.File).Close", func(m *Machine, fn *ssa.Function, a []Value) Value {
-		m.fileOf(a[0].(Ptr)).closed = true
+		f := m.fileOf(a[0].(Ptr))
+		if f.isK {
+			if f.closed {
+				return m.mkError(ConcStr("file already closed", m.S), nil)
+			}
+			f.closed = true
+			return m.K.sysClose(f.kfd)
+		}
+		f.closed = true
 		return Iface{}
 	})
 	reg("os.ReadDir", func(m *Machine, fn *ssa.Function, a []Value) Value {
@@ -710,3 +800,6 @@ func init() {
 		return nil
 	}
 }
+
+// isNilIface: the interface value is nil (no dynamic type).
+func isNilIface(i Iface) bool { return i.T == nil && i.V == nil }
